@@ -588,8 +588,24 @@ UNMODELLED_TYPES = ["template_int", "template_float", "template_ms", "template_s
 
 
 def rig_init():
-    if "rig" in _RIG:
+    """worker initialiser: must never raise (a raising Pool initialiser makes multiprocessing respawn workers forever)"""
+    if "rig" in _RIG or "error" in _RIG:
         return
+    try:
+        _rig_boot()
+    except BaseException as e:     # noqa
+        import traceback
+        _RIG["error"] = "the rig machine does not boot on this tree: %s: %s\n%s" % (
+            type(e).__name__, e, traceback.format_exc()[-1200:])
+
+
+def _need_rig():
+    rig_init()
+    if "error" in _RIG:
+        raise RuntimeError(_RIG["error"])
+
+
+def _rig_boot():
     import logging
     logging.disable(logging.CRITICAL)
     from rig import Rig
@@ -844,7 +860,7 @@ def gen_item(rng, tier, i):
 
 
 def run_item(case):
-    rig_init()
+    _need_rig()
     cv = _RIG["cv"]
     from mpf.core.config_validator import ValidationPath
     vfi = ValidationPath(ValidationPath(None, "sec"), "key")
@@ -1018,7 +1034,7 @@ def py_has_type(va, t, stats=None):
     if n == "machine":
         return t[0] == "n" or (t[0] == "dev" and t[2] in MACHINE.get(p, []))
     if n == "pow2":
-        return t[0] == "n" or (t[0] == "i" and int(t[1]) > 0 and int(t[1]) & (int(t[1]) - 1) == 0)
+        return t[0] == "n" or (t[0] == "i" and _is_pow2_int(int(t[1])))
     if n == "bool_int":
         return t[0] == "i" and t[1] in ("0", "1")
     if n == "list":
@@ -1053,13 +1069,77 @@ def py_has_item_type(ty, va, t):
     return None
 
 
+# ---- known finding pow2-returns-unconverted ---------------------------------------------------------
+def _is_pow2_int(n):
+    return n > 0 and n & (n - 1) == 0
+
+
+def _unconverted_pow2(t):
+    """a str / float / bool whose int() is a power of two (what the recorded defect lets through unconverted)"""
+    if t[0] not in ("s", "f", "b"):
+        return False
+    try:
+        return _is_pow2_int(int(untag(t)))
+    except (ValueError, OverflowError, TypeError):
+        return False
+
+
+def _input_elems(ty, item_t, default):
+    """the values the validator is applied to, unconverted (tagged), for an item / absent item"""
+    if item_t is None:
+        if default.lower() == "none" or default == "":
+            return []
+        item_t = ["s", default]
+    if ty == "single":
+        return [item_t]
+    if ty in ("list", "set"):
+        if item_t[0] == "s":
+            return [["s", x.strip()] for x in item_t[1].split(",")]
+        if item_t[0] == "l":
+            return list(item_t[1])
+        return [item_t]
+    if ty in ("dict", "event_handler") and item_t[0] == "d":
+        return [k for k, _ in item_t[1]] + [v for _, v in item_t[1]]
+    return []
+
+
+def pow2_defect_only(ty, va, item_t, default, out_t):
+    """True iff `out_t` is ill-typed ONLY because pow2 positions hold exactly an unconverted input value whose
+    int() is a power of two: replacing those by int(value) makes the result well typed."""
+    names = [split_validator(x)[0] for x in (va.split(":")[:2] if ty in ("dict", "event_handler") else [va])]
+    if "pow2" not in names:
+        return False
+    cands = [json.dumps(x) for x in _input_elems(ty, item_t, default)]
+    hit = [False]
+
+    def fix(t, is_pow2_pos):
+        if is_pow2_pos and _unconverted_pow2(t) and json.dumps(t) in cands:
+            hit[0] = True
+            return ["i", str(int(untag(t)))]
+        return t
+    if ty == "single":
+        fixed = fix(out_t, True)
+    elif ty in ("list", "set") and out_t[0] in ("l", "set"):
+        fixed = [out_t[0], [fix(x, True) for x in out_t[1]]]
+    elif ty in ("dict", "event_handler") and out_t[0] == "d":
+        fixed = ["d", [[fix(k, names[0] == "pow2"), fix(v, len(names) > 1 and names[1] == "pow2")] for k, v in out_t[1]]]
+    else:
+        return False
+    return hit[0] and py_has_item_type(ty, va, fixed) is not False
+
+
 def oracle_item(case, out):
     fails = []
     if out.get("spec_changed"):
         fails.append({"sig": "spec-modified", "what": "config_spec differs after validate_config_item(%r)" % case["spec"]})
     if "ok" in out:
         ty, va, de = case["spec"]
-        if py_has_item_type(ty, va, out["ok"]) is False:
+        if py_has_item_type(ty, va, out["ok"]) is False and \
+                pow2_defect_only(ty, va, case.get("item"), de, out["ok"]):
+            fails.append({"sig": "pow2-returns-unconverted",
+                          "what": "validate_config_item(%r, item=%r) returned %r: pow2 hands back the unconverted item" %
+                                  (case["spec"], case.get("item", "<absent>"), out["ok"])})
+        elif py_has_item_type(ty, va, out["ok"]) is False:
             fails.append({"sig": "ill-typed:" + (split_validator(va)[0] if ty not in ("dict", "event_handler") else "dict"),
                           "what": "validate_config_item(%r, item=%r) returned %r, which is not a value of the declared type" %
                                   (case["spec"], case.get("item", "<absent>"), out["ok"])})
@@ -1196,7 +1276,7 @@ def gen_section(rng, tier, i):
 
 
 def run_section(case):
-    rig_init()
+    _need_rig()
     from mpf.core.config_validator import ConfigValidator
     machine = _RIG["rig"].machine
     if "real" in case:
@@ -1297,6 +1377,7 @@ def oracle_section(case, out):
     for kt, vt in res[1]:
         rd[json.dumps(kt)] = vt
     src = case["source"]
+    src_vals = {kt[1]: vt for kt, vt in src[1] if kt[0] == "s"} if src[0] == "d" else {}
     # every provided key is still there
     if src[0] == "d":
         for kt, _ in src[1]:
@@ -1316,7 +1397,11 @@ def oracle_section(case, out):
             if case["add_missing"]:
                 fails.append({"sig": "spec-key-missing", "what": "spec key %r missing from the validated config" % k})
             continue
-        if e[0] == "item" and py_has_item_type(e[1], e[2], vt) is False:
+        if e[0] == "item" and py_has_item_type(e[1], e[2], vt) is False and \
+                pow2_defect_only(e[1], e[2], src_vals.get(k), e[3], vt):
+            fails.append({"sig": "pow2-returns-unconverted",
+                          "what": "key %r (%s) validated to %r: pow2 hands back the unconverted item" % (k, "|".join(e[1:]), vt)})
+        elif e[0] == "item" and py_has_item_type(e[1], e[2], vt) is False:
             fails.append({"sig": "ill-typed",
                           "what": "key %r (%s) validated to %r, which is not a value of the declared type" % (k, "|".join(e[1:]), vt)})
         if e[0] == "nested" and vt[0] != "l":
@@ -1350,10 +1435,71 @@ HDR_SECTION = ("From Coq Require Import QArith.\nFrom C12 Require Import Base Mo
 
 SUITES = [
     Suite("time", gen_time, run_time, HDR_TIME, coq_time, oracle_time, shrink_time, nontrivial_time,
-          {"quick": 3000, "thorough": 100000}, describe=describe_time, shard=500),
+          {"quick": 2500, "thorough": 100000}, describe=describe_time, shard=500),
     Suite("item", gen_item, run_item, HDR_ITEM, coq_item, oracle_item, shrink_item, nontrivial_item,
-          {"quick": 4000, "thorough": 120000}, worker_init=rig_init, describe=describe_item, shard=500),
+          {"quick": 3500, "thorough": 120000}, worker_init=rig_init, describe=describe_item, shard=500),
     Suite("section", gen_section, run_section, HDR_SECTION, coq_section, oracle_section, shrink_section,
-          nontrivial_section, {"quick": 2000, "thorough": 60000}, worker_init=rig_init, describe=describe_section,
+          nontrivial_section, {"quick": 1800, "thorough": 60000}, worker_init=rig_init, describe=describe_section,
           shard=300),
 ]
+
+
+def widened_search(seed):
+    """oracle-only sweep used when a proof / translation / correspondence breaks without a failing input:
+    every n/1000 for n < 20000 with every suffix through the time oracle"""
+    from mpf.core.utility_functions import Util
+    for n in range(0, 20000):
+        for suf in SUFFIXES:
+            txt = ("%d" % n if suf in ("ms", "msec") else "%d.%03d" % (n // 1000, n % 1000)) + suf
+            case = {"v": ["s", txt]}
+            out = {"ms": _outcome(Util.string_to_ms, txt), "secs": _outcome(Util.string_to_secs, txt)}
+            fails = oracle_time(case, out)
+            if fails:
+                return {"sig": fails[0]["sig"], "what": fails[0]["what"], "case": case, "suite": "time", "impl": out}
+    return None
+
+
+RULE = ("time: strings <decimal><suffix> (65% d.ddd, plus integers, long fractions, exponents, underscores, whitespace, "
+        "inf/nan, junk) x suffix ms/msec/s/sec/m/h/d in random letter case, and non-string inputs; non-trivial = digits "
+        "and a letter suffix.  item: 30% entries drawn from the real config_spec.yaml (all sections), 70% synthetic "
+        "type|validator|default over every modelled validator (with ranges, enums, device sections, _or_token, malformed "
+        "validators) and item type; the item is mostly-valid for the validator (boundary values lo, hi, lo-1, hi+0.001, NaN, "
+        "inf, numeric text with whitespace/sign/underscore) or an arbitrary nested YAML value; 12% absent (default / "
+        "required).  section: 45% real sections (with base spec 'device' where declared), 55% synthetic specs with 1-3 base "
+        "specs; mostly-valid source with one perturbation (unknown key incl. _private / empty / non-string keys, wrong "
+        "type, deleted key, non-dict source); non-trivial = non-empty dict source; distinct by case hash")
+TRUSTED_BASE = [
+    "Coq 8.16.1 kernel (coqc), vm_compute for witnesses and for evaluating the model in the correspondence run; no native_compute",
+    "axioms: none (every Print Assumptions is 'Closed under the global context'); stdlib QArith/Qround/Qabs/Lqa (lra, nra), Lia",
+    "translator harness/props/c12.py translate(): Python ast of Util.string_to_ms/string_to_secs -> coq/C12/gen/Time.v "
+    "(supported subset: endswith tests, [:-k] slices, int/float/round calls, * positive int constants; fail-closed), and the "
+    "check of ConfigValidator.validator_list against the model's dispatch",
+    "hand-written model coq/C12/Model.v + Base.v tied to the working tree by correspondence: the real ConfigValidator of a "
+    "booted machine (harness/rig.py) and the model run on the same generated inputs, outcomes compared incl. error numbers",
+    "CPython: float()/int()/round()/repr(float)/str.upper/lower/strip and binary64 arithmetic are the semantics Base.v's "
+    "rnd53 / parse_float / parse_int model; validated on every run (time suite), repr(float) supplied as data",
+    "the Python oracle (py_has_type, expected_ms with fractions.Fraction) and MPF's YAML/spec loader for config_spec.yaml",
+]
+ASSUMPTIONS = [
+    "ASCII strings; |numbers| in [2^-1000, 2^1000) or 0; numeric text <= 100 digits, |exponent| <= 180 (others are oracle-only)",
+    "spec entries are well formed (three fields; range bounds parse); validators template_*/color/kivycolor/gain/"
+    "int_from_hex/subconfig/dict(k:v) and nested sub-config lists are outside the model (oracle-only, counted)",
+    "time theorem: float() reads the text before the suffix as the nearest double of a rational x >= 0 (hypothesis), "
+    "x*unit whole and < 2^49",
+    "the fix commits d658b1b (time strings) and 5a156f6 (range NaN) are in the tree under test; pow2 is modelled as is "
+    "(known finding pow2-returns-unconverted)",
+]
+LEVEL_TEXT = ("Machine-checked proof (Coq) that, in an executable model of ConfigValidator (scalar validators, ranges, enums, "
+              "devices, tokens, list/set/dict/event_handler normalisation, defaults, unknown-key check, section loop, spec "
+              "merge and cache), every accepted value has its declared type and range, accepted sections are complete, unknown "
+              "keys are rejected, provided keys are kept and the spec is never modified; and that the time-string arithmetic "
+              "TRANSLATED from Util.string_to_ms on every run yields exactly value times unit (binary64 rounding modelled on "
+              "exact rationals with a proved 2^-53 relative error bound).  The model is tied to the working tree by running "
+              "both on the same generated inputs on every run; a direct oracle checks the property's predicate on the "
+              "implementation's outputs for all 220 sections of the real spec.")
+LEVEL_NOTE = ("Trusted: Coq kernel + vm_compute; no axioms. Time functions translated (fail-closed), validators hand-modelled and "
+              "validated differentially incl. error numbers. float()/int() text parsing and binary64 rounding are modelled in "
+              "Gallina and validated against CPython on every run; that parse_float reads decimal text correctly is a hypothesis "
+              "of the time theorem (hence _partial). Unmodelled validator types are covered by the oracle only.")
+TECHNIQUE = ("Coq proof over translated (time strings) + hand-written (validators) executable model, differential correspondence "
+             "(vm_compute) against the real ConfigValidator of a booted machine, direct typedness/completeness/spec-immutability oracle")
